@@ -543,8 +543,8 @@ V(id='c07-halfwidth-truncated', prop='C07', file='mpmath/libmp/libmpi.py',
   old="    y = from_str(y, wp, round_ceiling)\n    assert", new="    y = from_str(y, wp)\n    assert",
   expect='fire:C-R7:mpi_from_str_a_b')
 V(id='c07-convert-arg-drops-rounding', prop='C07', file='mpmath/ctx_mp_python.py',
-  old="        if isinstance(x, basestring): return from_str(x, prec, rounding)\n        if isinstance(x, cls.context.constant)",
-  new="        if isinstance(x, basestring): return from_str(x, prec)\n        if isinstance(x, cls.context.constant)",
+  old="        if isinstance(x, basestring): return from_str(x, prec, rounding)\n",
+  new="        if isinstance(x, basestring): return from_str(x, prec)\n",
   expect='fire:B-R3t:mpf_convert_arg')
 V(id='c07-benign-threshold', prop='C07', file='mpmath/libmp/libmpf.py',
   old="    if abs(exp) > 400 and abs(exp + int(bitcount(abs(man))*0.30103)) > 400:", new="    if abs(exp) > 1000 and abs(exp + int(bitcount(abs(man))*0.30103)) > 400:",
@@ -2362,7 +2362,7 @@ V(id='c08-enclosure-loop-without-exact-exit', prop='C08', file='mpmath/libmp/lib
                 # The two ends keep straddling a dps-digit decimal D: s is
                 # D itself or extremely close to it. Compare exactly.
                 # D = N * 10^e10 is the decimal that the upper end reached
-                N = int(digits2[:dps].ljust(dps, '0'))
+                N = str_to_int(digits2[:dps].ljust(dps, '0'))
                 e10 = exponent2 - (dps-1) + b
                 lhs = man << max(exp, 0)
                 rhs = N << max(-exp, 0)
@@ -2835,12 +2835,12 @@ V(id='c35-benign-identify-namespace-filled-always', prop='C35', file='mpmath/ide
 
 # ---- C07 / C08 seeding round 7: L-R3 text never through float() for its value (seed C08-4) ----
 V(id='c07-string-fast-path-through-float', prop='C07', file='mpmath/ctx_mp_python.py',
-  old="        if isinstance(x, basestring): return from_str(x, prec, rounding)\n        if isinstance(x, cls.context.constant): return x.func(prec, rounding)\n",
-  new="        if isinstance(x, basestring):\n            if prec == 53 and rounding == round_nearest:\n                try: f = float(x)\n                except ValueError: f = 0.0\n                if f and f - f == 0.0:\n                    return from_float(f)\n            return from_str(x, prec, rounding)\n        if isinstance(x, cls.context.constant): return x.func(prec, rounding)\n",
+  old="        if isinstance(x, basestring): return from_str(x, prec, rounding)\n",
+  new="        if isinstance(x, basestring):\n            if prec == 53 and rounding == round_nearest:\n                try: f = float(x)\n                except ValueError: f = 0.0\n                if f and f - f == 0.0:\n                    return from_float(f)\n            return from_str(x, prec, rounding)\n",
   expect='fire:L-R3:mpf_convert_arg')
 V(id='c08-string-fast-path-through-float', prop='C08', file='mpmath/ctx_mp_python.py',
-  old="        if isinstance(x, basestring): return from_str(x, prec, rounding)\n        if isinstance(x, cls.context.constant): return x.func(prec, rounding)\n",
-  new="        if isinstance(x, basestring):\n            if prec == 53 and rounding == round_nearest:\n                try: f = float(x)\n                except ValueError: f = 0.0\n                if f and f - f == 0.0:\n                    return from_float(f)\n            return from_str(x, prec, rounding)\n        if isinstance(x, cls.context.constant): return x.func(prec, rounding)\n",
+  old="        if isinstance(x, basestring): return from_str(x, prec, rounding)\n",
+  new="        if isinstance(x, basestring):\n            if prec == 53 and rounding == round_nearest:\n                try: f = float(x)\n                except ValueError: f = 0.0\n                if f and f - f == 0.0:\n                    return from_float(f)\n            return from_str(x, prec, rounding)\n",
   expect='fire:L-R3:mpf_convert_arg')
 V(id='c07-str-to-man-exp-value-from-float', prop='C07', file='mpmath/libmp/libmpf.py',
   old="    # Verify that the input is a valid float literal\n    float(x)\n", new="    # Verify that the input is a valid float literal\n    approx = float(x)\n",
@@ -3076,3 +3076,10 @@ V(id='c35-list-formulas-not-operands', prop='C35', file='mpmath/identification.p
 V(id='c35-quadratic-pslq-can-raise', prop='C35', file='mpmath/identification.py',
   old="                try:\n                    q = ctx.pslq([ctx.one, t, t**2], tol, M)\n                except ValueError:\n                    # (t**2 lies below the resolution of pslq)\n                    q = None\n",
   new="                q = ctx.pslq([ctx.one, t, t**2], tol, M)\n", expect='fire:Q-R15:identify')
+
+# ---- C08 W-R6 (= B-R5 under C08; seed C08-6), C39 N-R3 rounding constructor (seed C39-8) ----
+V(id='c08-from-str-rounds-the-literal-mantissa', prop='C08', file='mpmath/libmp/libmpf.py',
+  old="        s = from_int(man)\n        s = mpf_mul(s, mpf_pow_int(ften, exp, prec+10, prnd), prec, rnd)\n",
+  new="        s = from_int(man, prec, rnd)\n        s = mpf_mul(s, mpf_pow_int(ften, exp, prec+10, prnd), prec, rnd)\n", expect='fire:W-R6:from_str')
+V(id='c39-frexp-through-rounding-constructor', prop='C39', file='mpmath/ctx_mp.py',
+  old="        x = ctx.convert(x)\n        y, n = libmp.mpf_frexp(x._mpf_)\n", new="        x = ctx.mpf(x)\n        y, n = libmp.mpf_frexp(x._mpf_)\n", expect='fire:N-R3:frexp')
